@@ -146,6 +146,23 @@ selectFnType get_select_fn() {
   return (selectFnType)dlsym(RTLD_NEXT, "select");
 }
 
+// errno is thread-local. A fiber that waits in fiber_wait_for_event() can be
+// resumed by another kernel thread, and the compiler may keep using the
+// address of errno it computed before that call (__errno_location() is
+// declared const). Always fetch it through calls the compiler cannot see
+// through, otherwise a retry loop tests the previous thread's errno and a
+// blocking call leaks EAGAIN to its caller.
+static __attribute__((noinline)) int fiber_io_errno(void) { return errno; }
+
+static __attribute__((noinline)) void fiber_io_set_errno(int value) {
+  errno = value;
+}
+
+static inline int fiber_io_would_block(void) {
+  const int e = fiber_io_errno();
+  return e == EWOULDBLOCK || e == EAGAIN;
+}
+
 #define IO_FLAG_BLOCKING 1
 #define IO_FLAG_WAITABLE 2
 
@@ -285,7 +302,7 @@ int accept(ACCEPTPARAMS) {
   }
 
   int sock = fibershim_accept(sockfd, addr, addrlen);
-  if (sock < 0 && (errno == EWOULDBLOCK || errno == EAGAIN) &&
+  if (sock < 0 && fiber_io_would_block() &&
       should_block(sockfd)) {
     if (!fiber_wait_for_event(sockfd, FIBER_POLL_IN)) {
       return -1;
@@ -317,7 +334,7 @@ ssize_t read(int fd, void* buf, size_t count) {
       }
     }
     ret = fibershim_read(fd, buf, count);
-  } while (ret < 0 && (errno == EWOULDBLOCK || errno == EAGAIN) &&
+  } while (ret < 0 && fiber_io_would_block() &&
            should_block(fd));
 
   return ret;
@@ -336,7 +353,7 @@ ssize_t readv(int fd, const struct iovec* iov, int iovcnt) {
       }
     }
     ret = fibershim_readv(fd, iov, iovcnt);
-  } while (ret < 0 && (errno == EWOULDBLOCK || errno == EAGAIN) &&
+  } while (ret < 0 && fiber_io_would_block() &&
            should_block(fd));
 
   return ret;
@@ -355,7 +372,7 @@ ssize_t recv(int fd, void* buf, size_t len, int flags) {
       }
     }
     ret = fibershim_recv(fd, buf, len, flags);
-  } while (ret < 0 && (errno == EWOULDBLOCK || errno == EAGAIN) &&
+  } while (ret < 0 && fiber_io_would_block() &&
            !(flags & MSG_DONTWAIT) && should_block(fd));
 
   return ret;
@@ -374,7 +391,7 @@ ssize_t recvfrom(RECVFROMPARAMS) {
       }
     }
     ret = fibershim_recvfrom(sockfd, buf, len, flags, src_addr, addrlen);
-  } while (ret < 0 && (errno == EWOULDBLOCK || errno == EAGAIN) &&
+  } while (ret < 0 && fiber_io_would_block() &&
            !(flags & MSG_DONTWAIT) && should_block(sockfd));
 
   return ret;
@@ -393,7 +410,7 @@ ssize_t recvmsg(int sockfd, struct msghdr* msg, int flags) {
       }
     }
     ret = fibershim_recvmsg(sockfd, msg, flags);
-  } while (ret < 0 && (errno == EWOULDBLOCK || errno == EAGAIN) &&
+  } while (ret < 0 && fiber_io_would_block() &&
            !(flags & MSG_DONTWAIT) && should_block(sockfd));
 
   return ret;
@@ -405,7 +422,7 @@ ssize_t write(int fd, const void* buf, size_t count) {
   }
 
   int ret = fibershim_write(fd, buf, count);
-  while (ret < 0 && (errno == EWOULDBLOCK || errno == EAGAIN) &&
+  while (ret < 0 && fiber_io_would_block() &&
          should_block(fd)) {
     if (!fiber_wait_for_event(fd, FIBER_POLL_OUT)) {
       return -1;
@@ -422,7 +439,7 @@ ssize_t writev(int fd, const struct iovec* iov, int iovcnt) {
   }
 
   int ret = fibershim_writev(fd, iov, iovcnt);
-  while (ret < 0 && (errno == EWOULDBLOCK || errno == EAGAIN) &&
+  while (ret < 0 && fiber_io_would_block() &&
          should_block(fd)) {
     if (!fiber_wait_for_event(fd, FIBER_POLL_OUT)) {
       return -1;
@@ -439,7 +456,7 @@ ssize_t send(int sockfd, const void* buf, size_t len, int flags) {
   }
 
   ssize_t ret = fibershim_send(sockfd, buf, len, flags);
-  while (ret < 0 && (errno == EWOULDBLOCK || errno == EAGAIN) &&
+  while (ret < 0 && fiber_io_would_block() &&
          !(flags & MSG_DONTWAIT) && should_block(sockfd)) {
     if (!fiber_wait_for_event(sockfd, FIBER_POLL_OUT)) {
       return -1;
@@ -457,7 +474,7 @@ ssize_t sendto(int sockfd, const void* buf, size_t len, int flags,
   }
 
   ssize_t ret = fibershim_sendto(sockfd, buf, len, flags, dest_addr, addrlen);
-  while (ret < 0 && (errno == EWOULDBLOCK || errno == EAGAIN) &&
+  while (ret < 0 && fiber_io_would_block() &&
          !(flags & MSG_DONTWAIT) && should_block(sockfd)) {
     if (!fiber_wait_for_event(sockfd, FIBER_POLL_OUT)) {
       return -1;
@@ -474,7 +491,7 @@ ssize_t sendmsg(int sockfd, const struct msghdr* msg, int flags) {
   }
 
   ssize_t ret = fibershim_sendmsg(sockfd, msg, flags);
-  while (ret < 0 && (errno == EWOULDBLOCK || errno == EAGAIN) &&
+  while (ret < 0 && fiber_io_would_block() &&
          !(flags & MSG_DONTWAIT) && should_block(sockfd)) {
     if (!fiber_wait_for_event(sockfd, FIBER_POLL_OUT)) {
       return -1;
@@ -503,7 +520,7 @@ int connect(int sockfd, const struct sockaddr* addr, socklen_t addrlen) {
     }
 
     if (so_error) {
-      errno = so_error;
+      fiber_io_set_errno(so_error);
       return -1;
     }
 
